@@ -85,7 +85,7 @@ func allPaths(tv *typed.TypedValue) []fieldpath.Path {
 
 func domTyp(r *gen.Rng, n int, thorough bool, o *Out) {
 	var c *typCtx
-	typePool := []string{"root", "root", "root", "itemList", "item2List", "itemDList", "tree", "__untyped_deduced_", "openStruct", "numSet", "anySet", "strMap", "point"}
+	typePool := []string{"root", "root", "root", "matrix", "itemList", "item2List", "itemDList", "tree", "__untyped_deduced_", "openStruct", "numSet", "anySet", "strMap", "point"}
 	for i := 0; i < n; i++ {
 		cr := r.Fork(uint64(i))
 		if i%40 == 0 {
@@ -133,6 +133,14 @@ func domTyp(r *gen.Rng, n int, thorough bool, o *Out) {
 		default:
 			// a related value: regenerate with the same key universe (shares many members)
 			v2 = c.gs.RootValue(cr.Fork(7), ref, 4, &optsR)
+		}
+		if cr.Chance(25) {
+			// the same object with one or two scalar leaves changed in place (type preserving): a difference
+			// deep inside nested lists / maps with everything before it equal
+			v2 = tweakLeaf(cr, gen.DeepCopy(v1))
+			if cr.Bool() {
+				v2 = tweakLeaf(cr, v2)
+			}
 		}
 		rootLeafPair := false
 		if cr.Chance(4) { // root-leaf pairs: empty / null on both sides (not necessarily conforming)
@@ -339,6 +347,44 @@ func domTyp(r *gen.Rng, n int, thorough bool, o *Out) {
 			o.Nontrivial(opC)
 		}
 	}
+}
+
+// tweakLeaf changes one scalar leaf of v to another scalar of the same Go kind, somewhere deep.
+func tweakLeaf(r *gen.Rng, v interface{}) interface{} {
+	switch t := v.(type) {
+	case map[string]interface{}:
+		if len(t) == 0 {
+			return t
+		}
+		keys := make([]string, 0, len(t))
+		for k := range t {
+			keys = append(keys, k)
+		}
+		sortStrings(keys)
+		k := gen.Pick(r, keys)
+		t[k] = tweakLeaf(r, t[k])
+		return t
+	case []interface{}:
+		if len(t) == 0 {
+			return t
+		}
+		// prefer a late element: everything before it stays equal
+		i := len(t) - 1
+		if r.Chance(40) {
+			i = r.Intn(len(t))
+		}
+		t[i] = tweakLeaf(r, t[i])
+		return t
+	case int64:
+		return t + 1 + int64(r.Intn(2))
+	case float64:
+		return t + 0.5
+	case string:
+		return t + "x"
+	case bool:
+		return !t
+	}
+	return v
 }
 
 // judgeCompare: C11 laws on the implementation's own answers.
